@@ -148,10 +148,23 @@ CLAIMED = {
         "descending/zigzag orders, growing and shrinking updates, delete-all-then-reinsert, heights up to 3) are dumped page by "
         "page; each dump goes through the verified checker inside Coq and through independent python checks (depth, sibling "
         "links, contents), and every answer is compared with the abstract map.  Rows larger than a twentieth of the page break "
-        "the tree (recorded finding with witness; two of its causes were fixed), as do integer keys beyond 2^53 (C19 finding).",
+        "the tree (recorded finding with witness; two of its causes were fixed), as do integer keys beyond 2^53 (C19 finding).  "
+        "Below the tree, the slotted page of storage/core/buffer.rs is modelled operation by operation (Model/Slotted.v: slot "
+        "array, cell bytes as written extents, free-space counter and pointer; insert with the defragmentation it triggers - "
+        "cells slid to the end in descending offset order -, remove, both cases of replace, drain) and proved to refine a plain "
+        "list of cells for every capacity and every operation sequence, valid or not (C10_page_refines_list: an invariant - "
+        "live cells pairwise disjoint, inside [free-space pointer, capacity), clear of the slot array, counter = capacity - 2*slots "
+        "- cell bytes, everything 8-aligned - is preserved by every step; results are those of the list; a replace that removes "
+        "first never fails half-way), with no spurious refusal (C10_page_insert_complete: StorageFull only when the cell does "
+        "not fit the bytes the list leaves free).  The model is run against the real page through the facade on random operation "
+        "sequences (pages that fill up, fragment, defragment, drain), comparing every result and the full page state (offsets, "
+        "pointer, counter, contents) after every operation, next to a model-independent python oracle.",
    note="Trusted: Coq kernel; dump produced by the facade from live pages; key order of each type = python order of the generator "
-        "(comparison functions are C19); the balancing algorithm itself is not modelled, its results are judged.",
-   technique="Coq proof (checker soundness by induction over trees; map refinement) + verified checker evaluated on implementation dumps + differential correspondence",
+        "(comparison functions are C19); the balancing algorithm itself (which cells go to which sibling) is not modelled, its "
+        "results are judged; the slotted-page model covers drain(..) as the callers use it (whole range, consumed to the end), "
+        "cell sizes that are multiples of CELL_ALIGNMENT (what every OwnedCell constructor produces) and treats the u16 slot "
+        "entries as unbounded (offsets stay below the capacity, at most 65456, by the invariant).",
+   technique="Coq proof (checker soundness by induction over trees; map refinement; slotted-page refinement by invariant over operation lists) + verified checker evaluated on implementation dumps + differential correspondence (trees, slotted page)",
    design="7 (C10)"),
  "C11": dict(
    text="Props/C11.v: the ownership checker run on every dump is sound - if it accepts, every page of the file other than page zero "
